@@ -30,7 +30,9 @@ for p in C09 C01; do
   [ "$a" = "$b" ] || { say "$p: propagators change the result"; echo "$a"; echo "$b"; fail=1; }
 done
 for s in z3-new cvc5; do
-  for p in SELF C11; do
+  # C11: the two original harnesses (the long-table variants sum many symbolic
+  # lengths and are only registered with the solver that decides them)
+  for p in "SELF" "C11 -only C11_Offsets" "C11 -only C11_LineColumn"; do
     a=$(bin/gosym check -prop $p -no-evidence 2>&1 | sum)
     b=$(GOSYM_SOLVER=$s bin/gosym check -prop $p -no-evidence 2>&1 | sum)
     [ "$a" = "$b" ] || { say "$p: $s disagrees with z3"; echo "$a"; echo "$b"; echo SOLVER-DISAGREE; fail=1; }
